@@ -110,14 +110,14 @@ Proof.
     assert (PP : forall b, Pot s (panic_if b m (emits now m Handler (h_msg h) (say m Handler (HHandle y now) s)))).
     { intros b. destruct (Pot_panic_if b m (emits now m Handler (h_msg h) (say m Handler (HHandle y now) s))) as [P2 _].
       unfold Pot in *. lia. }
-    destruct (h_extra h) as [|d|trig r|site trig]; try apply PP. destruct (y =? trig); [|exact P1].
+    destruct (h_extra h) as [|d|trig r pan|site trig since]; try apply PP. destruct (y =? trig); [|exact P1].
     unfold Pot, phi in *. cbn [say bud buf] in *. exact P1.
   - split; [unfold Pot; lia|reflexivity].
   - destruct (Pot_say_emits now m Handler (HSimStart st now) (h_start h) s) as [P1 S1].
-    destruct (Pot_panic_if (panics h (KStart st) msg) m (emits now m Handler (h_start h) (say m Handler (HSimStart st now) s))) as [P2 S2].
+    destruct (Pot_panic_if (panics now h (KStart st) msg) m (emits now m Handler (h_start h) (say m Handler (HSimStart st now) s))) as [P2 S2].
     unfold Pot, SameShut in *. split; [lia|intros _; congruence].
   - destruct (Pot_say_emits now m Handler (HSimEnd now) (h_end h) s) as [P1 S1].
-    destruct (Pot_panic_if (panics h KEnd msg) m (emits now m Handler (h_end h) (say m Handler (HSimEnd now) s))) as [P2 S2].
+    destruct (Pot_panic_if (panics now h KEnd msg) m (emits now m Handler (h_end h) (say m Handler (HSimEnd now) s))) as [P2 S2].
     unfold Pot, SameShut in *. split; [lia|intros _; congruence].
 Qed.
 
